@@ -72,7 +72,7 @@ def check(case: dict):
 
     g, sol, kind, ul = case["g"], case["sol"], case["kind"], case["ul"]
     values = case.get("values")
-    m = L.make_kind(kind, g, sol)
+    m = L.make_kind(kind, g, sol, dtype=L.provenance(case, g))
     sig = "C20"
     try:
         mp = call("C20:construct", MazePlot, m, unit_length=ul)
